@@ -17,7 +17,10 @@ def plan(tier):
     from contracts import client
     pl = Plan()
     pl.level = "other"
-    for part in ("plain", "special", "sizelike"):
+    from contracts import wire
+    for i, sh in enumerate(wire.ESCAPE_SHAPES):
+        pl.units.append(U("W1.prepare_args.escaped.shape%d" % i, "contracts.wire", "h_prepare_args_escaped", (sh,), native_ok=True, sample_models=True))
+    for part in ("plain", "unsendable", "sizelike"):
         pl.units.append(U("W1.prepare_args.%s" % part, "contracts.wire", "h_prepare_args_bytes", (part,),
                           replay=("contracts.wire_replay", "replay_prepare_args")))
     pl.units.append(U("W1.prepare_args.number", "contracts.wire", "h_prepare_args_int", ()))
@@ -26,6 +29,7 @@ def plan(tier):
         for x in (0, 2):
             pl.units.append(U("W3.send_command.args%d.extra%d" % (a, x), "contracts.wire", "h_send_command", (a, x),
                               setup=("contracts.wire", "setup_send")))
+    pl.units.append(U("W3.send_command.unsendable", "contracts.wire", "h_send_command_unsendable", (), setup=("contracts.wire", "setup_send")))
     for m in client.SCRIPT_METHODS:
         pl.units.append(U("W4.%s" % m, "contracts.wire", "h_call_site", (m,), setup=("contracts.client", "setup_typestate")))
 
